@@ -1,7 +1,7 @@
 SPECIFICATION Spec
 CONSTANTS
   Rank = 2
-  MaxExt = 2
+  MaxExt = 3
   MaxSteps = 3
   Acts = {"Write", "SetAll", "Append", "Extent", "Cal", "Reopen"}
 INVARIANT TypeOK
